@@ -128,6 +128,14 @@ def extract(name):
     gen = os.path.join(OCAML, "gen", name)
     os.makedirs(gen, exist_ok=True)
     os.makedirs(BIN, exist_ok=True)
+    with open(os.path.join(OCAML, "gen", f".lock-{name}"), "w") as lf:   # several checks share a driver (lat)
+        fcntl.flock(lf, fcntl.LOCK_EX)
+        if os.path.exists(exe) and os.path.getmtime(exe) >= _newest(deps):
+            return exe
+        return _extract_locked(name, exv, drv, hexio, exe, gen)
+
+
+def _extract_locked(name, exv, drv, hexio, exe, gen):
     for f in glob.glob(os.path.join(gen, "*")):
         os.remove(f)
     rc, out = run(["timeout", "600", "coqc", "-Q", COQ, "Koala", "-o", os.path.join(gen, os.path.basename(exv) + "o"), exv], cwd=gen)
@@ -136,13 +144,14 @@ def extract(name):
     for src in (hexio, drv):
         with open(src) as f, open(os.path.join(gen, os.path.basename(src)), "w") as g:
             g.write(f.read())
-    rc, out = run(["timeout", "600", "ocamlfind", "ocamlopt", "-O3", "-w", "-a", "-o", exe,
+    rc, out = run(["timeout", "600", "ocamlfind", "ocamlopt", "-O3", "-w", "-a", "-o", exe + ".new",
                    "model.mli", "model.ml", "hexio.ml", os.path.basename(drv)], cwd=gen)
     if rc != 0:
-        rc, out = run(["timeout", "600", "ocamlfind", "ocamlopt", "-w", "-a", "-o", exe,
+        rc, out = run(["timeout", "600", "ocamlfind", "ocamlopt", "-w", "-a", "-o", exe + ".new",
                        "model.mli", "model.ml", "hexio.ml", os.path.basename(drv)], cwd=gen)
     if rc != 0:
         raise BuildError("ocaml", out[-3000:], file=drv)
+    os.replace(exe + ".new", exe)
     return exe
 
 
